@@ -99,8 +99,13 @@ def gen(rng, tier):
                         then])
         elif k < 0.86:
             ops.append(['emit_cb', rng.randrange(nhosts), p, ns])
-        elif k < 0.95:
+        elif k < 0.92:
             ops.append(['ack', p])
+        elif k < 0.95:
+            # the client acknowledges and is disconnected (from any host)
+            # while the relayed acknowledgement is still on its way
+            ops.append(['emit_cb', rng.randrange(nhosts), p, ns])
+            ops.append(['ack_then_disc', p, rng.randrange(nhosts)])
         else:
             ops.append(['adv', rng.choice([0.01, 0.1, 0.5])])
     return {'cfg': cfg, 'ops': ops}
@@ -383,13 +388,35 @@ def _run(case, cfg, w):
                     pay = ack_payload(tag)
                     sc.peers[p].send_pkt(sio.ACK, ns, id_, pay)
                     cb_expected[tag] = pay
+        elif k == 'ack_then_disc':
+            _, p, hi = op
+            lst = outstanding.get(p, [])
+            if lst and sc.alive(p):
+                ns, id_, tag = lst.pop(0)
+                sid = sc.sid(p, ns)
+                if sid == cb_issued[tag]['sid']:
+                    pay = ack_payload(tag)
+                    sc.peers[p].send_pkt(sio.ACK, ns, id_, pay)
+                    cb_expected[tag] = pay
+                    # the client's own host has the ACK (and has relayed
+                    # it, if the emit came from elsewhere) before the
+                    # disconnect is asked for
+                    w.settle(horizon=0.0)
+                    touch_membership(None, ns)
+                    w.api('h%d' % hi, 'disconnect', sid, namespace=ns)
+                    sc.forget(p, ns)
+                    model.disconnect(sid, ns)
+                    after_membership(ns)
+                    stats['ack_then_disconnect'] = stats.get(
+                        'ack_then_disconnect', 0) + 1
         elif k == 'adv':
             w.advance(op[1])
         if immediate:
             drain()
         else:
             w.settle(horizon=0.0)
-        if k in ('enter', 'leave', 'close', 'disc', 'connect', 'emit_then'):
+        if k in ('enter', 'leave', 'close', 'disc', 'connect', 'emit_then',
+                 'ack_then_disc'):
             if pending_mops and taint[0] is None:
                 # a membership change issued while another one is still in
                 # flight: the hosts may apply the two in either order (a
